@@ -23,10 +23,13 @@ use crate::session::Session;
 use crate::simfs::SimFs;
 use crate::{dbutil, watch};
 
+const OWN_QUICK: u64 = 48;
+const OWN_THOROUGH: u64 = 600;
+
 pub fn plan(tier: &str) -> u64 {
     match tier {
-        "quick" => 48,
-        _ => 600,
+        "quick" => OWN_QUICK + 48,
+        _ => OWN_THOROUGH + 480,
     }
 }
 
@@ -728,8 +731,38 @@ fn case_degenerate_config(out: &mut CaseOut, rng: &mut Rng, idx: u64) {
     out.sample = Some(json!({"family": "degenerate-config", "config": cfg.describe()}));
 }
 
+/// "For every workload": cases of other properties' checks are run here for their liveness alone -
+/// the snapshot-heavy histories and the split hunter of C03 (outputs cut between two versions of
+/// one user key, partial manual compactions), the compaction shapes of C07 (slowed merges, backlog
+/// up to the level-0 triggers, seek storms) and the snapshot-per-write shapes of C04. What those
+/// checks say about contents is not this property's business and is dropped; a panic on a raindb
+/// thread or a call that does not return (the watchdog ends the shard) is.
+fn case_borrowed(out: &mut CaseOut, tier: &str, seed: u64, j: u64) {
+    let (name, inner) = match j % 4 {
+        0 | 1 => ("C03", super::c03::run_case(tier, seed, (j * 13) % super::c03::plan(tier))),
+        2 => ("C07", super::c07::run_case(tier, seed, (j * 7) % super::c07::plan(tier))),
+        _ => ("C04", super::c04::run_case(tier, seed, (j * 5) % super::c04::plan(tier))),
+    };
+    for (k, n) in inner.obs {
+        if k.starts_with("note.") || k == "trivial_moves" || k.ends_with("_compactions") {
+            *out.obs.entry(k).or_insert(0) += n;
+        }
+    }
+    out.add(&format!("borrowed_cases.{name}"), 1);
+    judge_bg_panics(out, "C09");
+    if !inner.nontrivial.is_empty() {
+        out.nontrivial(format!("borrowed/{name}/{}", inner.nontrivial.iter().next().map(|s| s.chars().take(40).collect::<String>()).unwrap_or_default()));
+    }
+    out.sample = Some(json!({"family": "borrowed-workload", "from": name, "inner_case_violations_dropped": inner.violations.len()}));
+}
+
 pub fn run_case(tier: &str, seed: u64, idx: u64) -> CaseOut {
     let mut out = CaseOut::new();
+    let own = if tier == "quick" { OWN_QUICK } else { OWN_THOROUGH };
+    if idx >= own {
+        case_borrowed(&mut out, tier, seed, idx - own);
+        return out;
+    }
     let mut rng = Rng::new(mix(&[seed, idx], "c09"));
     match idx % 6 {
         2 if idx % 12 == 8 => case_degenerate_config(&mut out, &mut rng, idx),
